@@ -1,7 +1,89 @@
-(* C14 — samplers.  Only statements, each closed by [exact]. *)
-From Coq Require Import List Arith Lia PeanoNat.
-From TV Require Import Num.Ops Lin.Tab TT.Chain Model.Sample Proofs.SampleP.
+(* C14 — samplers.  Only statements, each closed by [exact] (or one line of glue). *)
+From Coq Require Import List Arith Lia PeanoNat ZArith QArith Qcanon Permutation.
+From TV Require Import Num.Ops Lin.Tab Lin.BigSum TT.Chain Model.Sample Proofs.SampleP Proofs.SampleIntP.
 Import ListNotations.
+Open Scope nat_scope.
 
-Theorem C14_transpose_length : forall A (d0 : A) m cols, length (transpose d0 m cols) = m.
-Proof. exact @transpose_length. Qed.
+(* ---- sample: the conditionals handed to choice multiply to entry/total ----
+   For every number structure with the ring laws, a/b = a*(1/b), b*(1/b) = 1 for b <> 0, a decidable
+   equality test and an order test compatible with + (Qc and the reals are instances), every generator
+   (choice returns an index below len(p)), every non-negative TT-tensor Y with d >= 1 modes, every m and
+   every unsert u >= 0: if sample returns (II, P) then there are m rows and, for each row j, the drawn
+   multi-index idx is inside the bounds, each of the d vectors handed to choice sums to 1 and the product
+   of their entries along idx satisfies
+       prod * marg0(i0) = ((marg0(i0) + u) / (total + n0*u)) * Y[idx]      (exact formula, any u)
+       prod = Y[idx] / total                                              (u = 0). *)
+Theorem C14_sample_chain : forall T (K : ops T), rng K -> field_laws K -> order_laws K ->
+  forall ch, choice_ok ch -> forall Y m u II P,
+  chain 1 Y 1 -> (forall idx, inb (shape Y) idx -> nn K (get K Y idx)) -> nn K u ->
+  sample K ch Y m u = Ok (II, P) ->
+  length II = m /\ length P = m /\
+  forall j, j < m ->
+    let idx := nth j II [] in let Pj := nth j P [] in
+    inb (shape Y) idx /\ length Pj = length Y /\ Forall (fun p => lsum K p = o1 K) Pj /\
+    omul K (lprod K (along (o0 K) idx Pj)) (marg0 K Y (hd O idx)) =
+      omul K (odiv K (oadd K (marg0 K Y (hd O idx)) u)
+                     (oadd K (total K Y) (bsum K (hd O (shape Y)) (fun _ => u)))) (get K Y idx) /\
+    (u = o0 K -> lprod K (along (o0 K) idx Pj) = odiv K (get K Y idx) (total K Y)) /\
+    (tl Y <> [] -> marg0 K Y (hd O idx) <> o0 K).
+Proof. exact @sample_chain. Qed.
+
+(* non-vacuity of the laws: the exact rationals the correspondence runs on satisfy them *)
+Example C14_laws_Qc : rng OQc /\ field_laws OQc /\ order_laws OQc.
+Proof. exact (conj OQc_rng (conj OQc_field_laws OQc_order_laws)). Qed.
+
+(* ---- sample_lhs ---- *)
+(* shape [m, d] and bounds, for every generator meeting the contract of choice(replace=False) / shuffle *)
+Theorem C14_sample_lhs_shape : forall chnr shuf1,
+  (forall c k s, s <= k -> length (chnr c k s) = s /\ NoDup (chnr c k s) /\ Forall (fun x => x < k) (chnr c k s)) ->
+  (forall c l, Permutation l (shuf1 c l)) ->
+  forall base ns m, Forall (fun k => 1 <= k) ns ->
+  length (sample_lhs chnr shuf1 base ns m) = m /\
+  forall j, j < m -> inb ns (nth j (sample_lhs chnr shuf1 base ns m) []).
+Proof. exact sample_lhs_shape. Qed.
+
+(* every index v of mode i is used floor(m/n_i) times, or ceil(m/n_i) = floor + 1 times when n_i does not divide m *)
+Theorem C14_lhs_counts : forall chnr shuf1,
+  (forall c k s, s <= k -> length (chnr c k s) = s /\ NoDup (chnr c k s) /\ Forall (fun x => x < k) (chnr c k s)) ->
+  (forall c l, Permutation l (shuf1 c l)) ->
+  forall base ns m i v, Forall (fun k => 1 <= k) ns -> i < length ns -> v < nth i ns O ->
+  let col := map (fun row => nth i row O) (sample_lhs chnr shuf1 base ns m) in
+  length col = m /\
+  (count_occ Nat.eq_dec col v = m / nth i ns O \/
+   (count_occ Nat.eq_dec col v = S (m / nth i ns O) /\ m mod nth i ns O <> O)).
+Proof. exact lhs_counts. Qed.
+
+(* ---- sample_rand ---- *)
+Theorem C14_sample_rand_shape : forall chu,
+  (forall c k m, 1 <= k -> length (chu c k m) = m /\ Forall (fun x => x < k) (chu c k m)) ->
+  forall ns m, Forall (fun k => 1 <= k) ns ->
+  match sample_rand chu ns m with
+  | Ok rows => ns <> [] /\ length rows = m /\ forall j, j < m -> inb ns (nth j rows [])
+  | Err e => ns = [] /\ e = ValueError
+  end.
+Proof. exact sample_rand_shape. Qed.
+
+(* ---- sample_tt: the advertised block layout (no contract on the generator needed) ----
+   idx has d+1 entries starting at 0 and ending at the number of rows, idx_many[i] = number of right samples,
+   block i has n_i * len_1 * len_2 rows and row (v*len_1 + a)*len_2 + c of it is  L1[a] ++ [v] ++ L2[c]
+   where L1 / L2 are the sample_lhs blocks of the prefix n[:i] / suffix n[i+1:] (a single empty row where the
+   code has no block: the prefix of mode 0 when d >= 2, the suffix of the last mode). *)
+Theorem C14_tt_layout : forall chnr shuf1 ns r rows idx many,
+  sample_tt chnr shuf1 ns r = (rows, idx, many) ->
+  let d := length ns in
+  length idx = S d /\ length many = d /\ nth O idx O = O /\ nth d idx O = length rows /\
+  forall i, i < d ->
+    let L1 := tt_L1 chnr shuf1 (i * (d - 1)) (firstn i ns) (skipn (S i) ns) r in
+    let L2 := tt_L2 chnr shuf1 (i * (d - 1)) (firstn i ns) (skipn (S i) ns) r in
+    nth i many O = length L2 /\
+    nth (S i) idx O = nth i idx O + nth i ns O * (length L1 * length L2) /\
+    forall v a c, v < nth i ns O -> a < length L1 -> c < length L2 ->
+      nth (nth i idx O + (v * length L1 + a) * length L2 + c) rows [] = nth a L1 [] ++ v :: nth c L2 [].
+Proof. exact tt_layout. Qed.
+
+(* every row of sample_tt is a multi-index inside the bounds *)
+Theorem C14_tt_bounds : forall chnr shuf1,
+  (forall c k s, s <= k -> length (chnr c k s) = s /\ NoDup (chnr c k s) /\ Forall (fun x => x < k) (chnr c k s)) ->
+  (forall c l, Permutation l (shuf1 c l)) ->
+  forall ns r, Forall (fun k => 1 <= k) ns -> Forall (inb ns) (fst (fst (sample_tt chnr shuf1 ns r))).
+Proof. exact tt_bounds. Qed.
